@@ -225,6 +225,46 @@ func c19API(c *Ctx) {
 		}
 	}
 
+	// healthz on configurations that already have an http section
+	for _, pre := range []struct {
+		what string
+		sc   *serviceconfig.Service
+		own  []string
+	}{
+		{"an empty http section", &serviceconfig.Service{Http: &annotations.Http{}}, nil},
+		{"fully_decode_reserved_expansion only", &serviceconfig.Service{Http: &annotations.Http{FullyDecodeReservedExpansion: true}}, nil},
+		{"the operator's own rules for the same method", &serviceconfig.Service{Http: &annotations.Http{Rules: []*annotations.HttpRule{
+			func() *annotations.HttpRule {
+				r := getRule("/livez")
+				r.Selector = "grpc.health.v1.Health.Check"
+				return r
+			}(),
+			func() *annotations.HttpRule {
+				r := getRule("/readyz/{service}")
+				r.Selector = "grpc.health.v1.Health.Check"
+				return r
+			}(),
+		}}}, []string{"/livez", "/readyz/x"}},
+	} {
+		before := len(pre.sc.GetHttp().GetRules())
+		larkinghealth.AddHealthz(pre.sc)
+		m2, err := larking.NewMux(larking.ServiceConfigOption(pre.sc))
+		c.Eval("api-healthz", "AddHealthz on "+pre.what, true)
+		if err != nil {
+			c.SpecFail("api-healthz", "AddHealthz on "+pre.what, err.Error(), "a mux", "C19/healthz/populated-config", "")
+			continue
+		}
+		hs2 := health.NewServer()
+		healthpb.RegisterHealthServer(m2, hs2)
+		hs2.SetServingStatus("x", healthpb.HealthCheckResponse_SERVING)
+		for _, p := range append([]string{"/v1/healthz"}, pre.own...) {
+			rec, pn := serveOn(m2, httptest.NewRequest("GET", p, nil))
+			if pn != nil || rec.Code != 200 {
+				c.SpecFail("api-healthz", "AddHealthz on "+pre.what+": GET "+p, fmt.Sprintf("%d %s (rules before %d, after %d)", rec.Code, truncS(rec.Body.String(), 80), before, len(pre.sc.GetHttp().GetRules())), "200", "C19/healthz/populated-config", "AddHealthz applied to a configuration that already has an http section does not expose /v1/healthz (or loses the existing rules)")
+			}
+		}
+	}
+
 	// healthz
 	sc := &serviceconfig.Service{}
 	larkinghealth.AddHealthz(sc)
